@@ -67,7 +67,7 @@ func Harness_C44_migrate_destroy() {
 	// a bystander contract
 	oval := nondetBytes("other.val", 1)
 	st.set(pkey(otherA, []byte{7}), oval)
-	height := nondetU32("height")
+	height := nondetU32("blockheight")
 	migrate := nondetBool("migrate")
 	var err error
 	if migrate {
